@@ -190,8 +190,16 @@ def custom_to_rdf(g, n, c):
 
 # ------------------------------------------------------------------ the oracle: run the declared query directly
 def path_text(path):
-    assert path[0] == "pred"
-    return "<%s>" % path[1]
+    """the SPARQL 1.1 property path a SHACL path stands for, written with every operand in brackets (an independent, fully bracketed
+    printer: what $PATH is replaced with must MEAN this, however it is spelled)"""
+    k = path[0]
+    if k == "pred":
+        return "<%s>" % path[1]
+    if k == "inv":
+        return "^(%s)" % path_text(path[1])
+    if k in ("seq", "alt"):
+        return "(%s)" % (" / " if k == "seq" else " | ").join("(%s)" % path_text(q) for q in path[1])
+    return "(%s)%s" % (path_text(path[1]), {"star": "*", "plus": "+", "opt": "?"}[k])
 
 
 def run_query(data, text, shape, this, value=None, extra=None, alt_ns=False):
